@@ -24,6 +24,10 @@ Abstractions (each is stated in harness/props/c09.py TRUSTED/ASSUMPTIONS):
 * the model is the code with the two proposed repairs applied (fixes/C09-*.diff):
   `Publish.update` takes the old length from the version being updated (`version[4]`), not from
   `node.get_size()`; `_do_modify_update` zero-fills a gap when `offset > len(old)`.
+* a `MutableFileVersion` object is a handle to the node: `step` applies every operation to the node's current
+  best version (`Option Version`), whether the code reaches it through a fresh or a reused version object
+  (fixes/C09-update-twice-stale-version.diff makes `_update` through a reused object do exactly that); the
+  object's cached servermap, and what the code refuses when the object was overtaken by another one, are not modelled.
 * Python ints are `Nat` where the code keeps them non-negative, `Int` for `end_segment` (which the
   code lets go to -1).
 -/
